@@ -155,13 +155,16 @@ let handle line =
       kind ^ " " ^ tok_of_ndo (match vr with Some v' -> Some (materialise ap v') | None -> None)
       ^ " " ^ tok_of_ndo (np_chain ixs (materialise ap v))
   | "reduce" ->
-      let (v, i) = view_of_toks a 3 in
+      (* a.(3): the scale indices whose scale is not > 0 *)
+      let negs = zlist_of_tok a.(3) in
+      let pos s = not (List.mem s negs) in
+      let (v, i) = view_of_toks a 4 in
       let ixs = List.map ix_of_tok (Array.to_list (Array.sub a i (Array.length a - i))) in
       let init = if bool_of_tok a.(2) then Some (ap Z0 Z0 Z0) else None in
       (match chain ap ixs v with
        | None -> "nochain"
        | Some x ->
-         (match reduce_plan ap (red_of a.(1)) init x with
+         (match reduce_plan ap pos (red_of a.(1)) init x with
           | PlanGrid (Some f) -> "grid:" ^ tok_of_t f
           | PlanGrid None -> "grid:none"
           | PlanMaterialised (r, i0, nd) -> "mat:" ^ red_name r ^ ":" ^ (match i0 with Some _ -> "init" | None -> "noinit") ^ ":" ^ tok_of_nd nd
